@@ -1,0 +1,55 @@
+//go:build verif
+
+package kcache
+
+// Export hooks for the /verif deterministic-simulation harness.  This file is
+// only compiled with the "verif" build tag; it adds no behaviour, it only makes
+// the unexported cache actor and the bare subscription/publisher constructors
+// reachable from outside the package.
+
+import (
+	"context"
+
+	logutil "github.com/boz/go-logutil"
+	"github.com/boz/kcache/filter"
+	metav1 "k8s.io/apimachinery/pkg/apis/meta/v1"
+)
+
+// VerifCache is the unexported cache interface with exported method names.
+type VerifCache interface {
+	CacheReader
+	Sync([]metav1.Object) ([]Event, error)
+	Update(Event) ([]Event, error)
+	Refilter([]metav1.Object, filter.Filter) ([]Event, error)
+	Done() <-chan struct{}
+	Error() error
+}
+
+type verifCache struct{ cache }
+
+func (c verifCache) Sync(l []metav1.Object) ([]Event, error) { return c.cache.sync(l) }
+func (c verifCache) Update(e Event) ([]Event, error)         { return c.cache.update(e) }
+func (c verifCache) Refilter(l []metav1.Object, f filter.Filter) ([]Event, error) {
+	return c.cache.refilter(l, f)
+}
+
+// VerifNewCache starts a bare cache actor.
+func VerifNewCache(ctx context.Context, log logutil.Log, stopch <-chan struct{}, f filter.Filter) VerifCache {
+	return verifCache{newCache(ctx, log, stopch, f)}
+}
+
+// VerifNewSubscription starts a bare subscription and returns it together with its send function.
+func VerifNewSubscription(log logutil.Log, stopch <-chan struct{}, readych <-chan struct{}, cache CacheReader) (Subscription, func(Event) error) {
+	s := newSubscription(log, stopch, readych, cache)
+	return s, s.send
+}
+
+// VerifNewPublisher starts a bare publisher over parent.
+func VerifNewPublisher(log logutil.Log, parent Subscription) Controller {
+	return newPublisher(log, parent)
+}
+
+// VerifNewFilterSubscription starts a bare filtered subscription over parent.
+func VerifNewFilterSubscription(log logutil.Log, parent Subscription, f filter.Filter, deferReady bool) FilterSubscription {
+	return newFilterSubscription(log, parent, f, deferReady)
+}
